@@ -88,6 +88,111 @@ func genSorterStress(r *RNG) *Trace {
 	return t
 }
 
+// genHaulTrace is the "volume" stratum: either a long haul (a small buffer
+// refilled dozens to thousands of times, absolute offsets passing 64 KiB and
+// 1 MiB) or a wide geometry (buffers and windows of 256 KiB to 2 MiB, match
+// offsets beyond 64 KiB and 1 MiB, hash tables of 2^16 and more entries). Hash
+// parsers mostly; the suffix-array parsers take part with at most 200 KiB.
+// mode "wrap" streams through a WrappedParser; mode "direct" cycles
+// Write/Parse.../Shrink with buffer probes in between.
+func genHaulTrace(r *RNG, mode string, probes bool) *Trace {
+	typ := parserTypes[r.Intn(len(parserTypes))]
+	sa := typ == "GSAP" || typ == "OSAP"
+	wide := r.Chance(0.4) && !sa
+	var spec ParserSpec
+	var n int
+	if wide {
+		spec = genParserSpec(r, typ, "huge")
+		spec.WindowSize = r.Pick(0, spec.BufferSize, spec.BufferSize/2, 1<<16, 1<<16+1, 1<<20, 1<<20+1)
+		spec.BlockSize = r.Pick(0, 1<<16, 1<<17, spec.BufferSize/3+1)
+		spec.HashBits, spec.HashBits1, spec.HashBits2 = r.Pick(0, 14, 16, 17, 20), r.Pick(0, 12, 16), r.Pick(0, 14, 18)
+		if spec.ShrinkSize > spec.BufferSize/2 {
+			spec.ShrinkSize = spec.BufferSize / r.Pick(2, 3, 8) // a refill must be worth it at this size
+		}
+		n = spec.BufferSize + r.Intn(2*spec.BufferSize)
+	} else {
+		spec = genParserSpec(r, typ, []string{"small", "medium"}[r.Intn(2)])
+		if spec.BufferSize == 0 || spec.BufferSize < 32 {
+			spec.BufferSize = 64 + r.Intn(4000)
+		}
+		if spec.ShrinkSize >= spec.BufferSize {
+			spec.ShrinkSize = spec.BufferSize / 2
+		}
+		if spec.ShrinkSize > spec.BufferSize/2 {
+			spec.ShrinkSize = spec.BufferSize / 2
+		}
+		// every Shrink re-bases the whole hash table: keep the tables small
+		// here (the wide mode has the large ones)
+		for _, hb := range []*int{&spec.HashBits, &spec.HashBits1, &spec.HashBits2} {
+			if *hb == 0 || *hb > 10 {
+				*hb = r.Range(1, 10)
+			}
+		}
+		if spec.BucketSize == 0 || spec.BucketSize > 10 {
+			spec.BucketSize = r.Pick(1, 2, 4, 10)
+		}
+		spec.BlockSize = maxInt(8, spec.BufferSize/r.Pick(1, 2, 4))
+		n = r.Pick(1<<16, 1<<17, 1<<18, 1<<20) + r.Range(-300, 5000)
+		if lim := 3000 * (spec.BufferSize - spec.ShrinkSize); n > lim {
+			n = lim // at most 3000 refills
+		}
+		if sa {
+			n = r.Pick(1<<16, 1<<17) + r.Range(-300, 5000)
+			if spec.BufferSize < 512 {
+				spec.BufferSize += 512 // every fill pays a fixed 256x256 bucket pass
+			}
+		}
+	}
+	bc := spec.defaults()
+	fam := r.pickStr("copyback", "copyback", "copyback256", "runs", "periodic", "iid4", "zeroheavy", "tandem")
+	t := &Trace{World: "parser", P: &spec, Input: genInput(r, n, fam)}
+	t.Note = fmt.Sprintf("volume wide=%v family=%s n=%d", wide, fam, n)
+	bl := maxInt(1, bc.BlockSize)
+	if mode == "wrap" {
+		spec.Target = "wrap"
+		if r.Chance(0.5) {
+			spec.Plan = &RPlan{MaxChunk: 1 + r.Intn(1<<15), EOFWithData: r.Chance(0.5)}
+		}
+		for i := n/minInt(bl, maxInt(1, bc.BufferSize)) + 8; i > 0; i-- {
+			op := Op{K: "WParse", Re: r.Chance(0.8)}
+			if r.Chance(0.1) {
+				op.F = lz.NoTrailingLiterals
+			}
+			t.Ops = append(t.Ops, op)
+		}
+		return t
+	}
+	// direct mode: fill, parse to empty, shrink, probe
+	fed := 0
+	for fed < n && len(t.Ops) < 60000 {
+		t.Ops = append(t.Ops, Op{K: r.pickStr("Write", "Write", "ReadFrom"), N: bc.BufferSize})
+		fed += maxInt(1, bc.BufferSize-bc.ShrinkSize)
+		for i := bc.BufferSize/bl + 1; i > 0; i-- {
+			op := Op{K: "Parse", Re: true}
+			if r.Chance(0.05) {
+				op.K = "ParseNil"
+				op.Re = false
+			}
+			t.Ops = append(t.Ops, op)
+		}
+		if probes && r.Chance(0.5) {
+			t.Ops = append(t.Ops, genReadAtOp(r, bc.BufferSize))
+		}
+		t.Ops = append(t.Ops, Op{K: "Shrink"})
+		if probes && r.Chance(0.5) {
+			t.Ops = append(t.Ops, genReadAtOp(r, bc.BufferSize))
+		}
+	}
+	return t
+}
+
+func minInt(a, b int) int {
+	if a < b {
+		return a
+	}
+	return b
+}
+
 func genParserTrace(r *RNG, tier string, o ptOpts) *Trace {
 	typ := o.types[r.Intn(len(o.types))]
 	class := pickClass(r, tier, o.allowLarge)
@@ -211,6 +316,12 @@ func init() {
 			if r.Chance(0.06) {
 				pg.trickle = 0.85
 			}
+			if run%1597 == 11 {
+				return genHaulTrace(r, "wrap", false)
+			}
+			if run%1597 == 811 {
+				return genHaulTrace(r, "direct", false)
+			}
 			if run%20 == 7 || run%20 == 13 || run%20 == 17 {
 				// suffix sorter stress: the optimizing parser emits what the
 				// suffix array says without verification, so C01 on OSAP (and the
@@ -234,6 +345,12 @@ func init() {
 	// ---------------------------------------------------------------- C02
 	register(&Prop{ID: "C02",
 		Gen: func(r *RNG, tier string, run int) *Trace {
+			if run%1597 == 11 {
+				return genHaulTrace(r, "wrap", false) // volume stratum
+			}
+			if run%1597 == 811 {
+				return genHaulTrace(r, "direct", false)
+			}
 			pg := defaultPGen()
 			pg.wNil = 2
 			pg.plan = planOpts{chunk: true}
@@ -263,6 +380,9 @@ func init() {
 	// ---------------------------------------------------------------- C03
 	register(&Prop{ID: "C03",
 		Gen: func(r *RNG, tier string, run int) *Trace {
+			if run%1597 == 11 || run%1597 == 811 {
+				return genHaulTrace(r, "direct", false) // volume stratum
+			}
 			pg := defaultPGen()
 			pg.flagsNTL = 0.5
 			pg.wShrink = 5
@@ -285,6 +405,9 @@ func init() {
 	// ---------------------------------------------------------------- C14
 	register(&Prop{ID: "C14",
 		Gen: func(r *RNG, tier string, run int) *Trace {
+			if run%1597 == 11 {
+				return genHaulTrace(r, "direct", false) // volume stratum (5 % of its Parse calls are Parse(nil))
+			}
 			pg := defaultPGen()
 			pg.wNil = 6
 			pg.wReset = 1
@@ -308,6 +431,9 @@ func init() {
 	// ---------------------------------------------------------------- C15
 	register(&Prop{ID: "C15",
 		Gen: func(r *RNG, tier string, run int) *Trace {
+			if run%1597 == 11 || run%1597 == 811 {
+				return genHaulTrace(r, "direct", true) // volume stratum with buffer probes
+			}
 			pg := defaultPGen()
 			pg.wParse = 5
 			pg.wNil = 1
@@ -340,6 +466,9 @@ func init() {
 	// ---------------------------------------------------------------- C19
 	register(&Prop{ID: "C19",
 		Gen: func(r *RNG, tier string, run int) *Trace {
+			if run%1597 == 11 {
+				return genHaulTrace(r, "direct", false) // volume stratum
+			}
 			pg := defaultPGen()
 			pg.flagsNTL = 0.2
 			fams := []string{"copyback", "periodic", "runs", "zeroprefix_runs", "iid1", "iid2", "fib", "zeroheavy"}
@@ -494,6 +623,9 @@ func init() {
 	// ---------------------------------------------------------------- C08
 	register(&Prop{ID: "C08",
 		Gen: func(r *RNG, tier string, run int) *Trace {
+			if run%797 == 11 {
+				return genHaulTrace(r, "wrap", false) // volume stratum
+			}
 			pg := defaultPGen()
 			faults := run%2 == 1
 			pg.plan = planOpts{chunk: true, faults: faults, dead: faults}
